@@ -274,7 +274,7 @@ func classSpec(r *rng.R) (*lexspec.Spec, specgen.Alphabet, []rune) {
 		case 4:
 			// literal with escapes and multi-byte characters
 			k := r.Range(1, 3)
-			l := lexspec.Lit{S: make([]rune, k), Esc: make([]bool, k)}
+			l := lexspec.Lit{S: make([]rune, k), Esc: make([]bool, k), Raw: r.Chance(1, 2)}
 			for j := range l.S {
 				l.S[j] = pick()
 				for l.S[j] == '\n' {
